@@ -5,4 +5,4 @@
 pub mod fs;
 mod hashmap;
 
-pub use hashmap::HashMap;
+pub use hashmap::{HashMap, ModelKey};
